@@ -65,7 +65,7 @@ var hostileSourcePointers = []string{"S1", "../x", "a/b", "places", "families", 
 var bigDocs = 0
 
 func genDoc(rt *rapid.T, hostile bool) *gen.GraphBP {
-	g := gen.Graph(gen.GraphOpts{MaxPeople: 5, MaxFamilies: 2, WildDates: true, Big: bigDocs, BigLo: 25, BigHi: 70}).Draw(rt, "doc")
+	g := gen.Graph(gen.GraphOpts{MaxPeople: 5, MaxFamilies: 2, WildDates: true, Big: bigDocs, BigLo: 25, BigHi: 45}).Draw(rt, "doc")
 	for i, p := range g.People {
 		// most people are dead so that every page group is populated in every mode; some are
 		// living for certain (born 2001, no death) so that the visibility matters
@@ -523,9 +523,9 @@ func genCase(rt *rapid.T) pubCase {
 
 func TestCheckSites(t *testing.T) {
 	s := harness.NewSub("closed-confined-deterministic",
-		"family graphs (<= 5 people, <= 2 families; one in 50 with 25..70 people) with hostile content (sources with pointers like ../x, a/b, places, families, x.html, S1#frag; people named like fixed pages, case variants of one name, surnames starting with digits, symbols and multi-byte letters, empty given names; places whose names collapse to the file key of a person or of a fixed page) x visibility x page-group masks x jobs {1,2,8,16} with repetitions; for a third of the cases another document is published first in the same process; oracle: every file name is a plain name, no name is handed to the writer twice, every href and location.href target is '#...', an absolute URL or a generated file, and the map name->bytes is identical across jobs and repetitions; non-trivial = >= 1 source, >= 2 people and hostile content or jobs > 1")
+		"family graphs (<= 5 people, <= 2 families; one in 150 with 25..45 people) with hostile content (sources with pointers like ../x, a/b, places, families, x.html, S1#frag; people named like fixed pages, case variants of one name, surnames starting with digits, symbols and multi-byte letters, empty given names; places whose names collapse to the file key of a person or of a fixed page) x visibility x page-group masks x jobs {1,2,8,16} with repetitions; for a third of the cases another document is published first in the same process; oracle: every file name is a plain name, no name is handed to the writer twice, every href and location.href target is '#...', an absolute URL or a generated file, and the map name->bytes is identical across jobs and repetitions; non-trivial = >= 1 source, >= 2 people and hostile content or jobs > 1")
 	s.Rapid(t, harness.Share(harness.Pick(1500, 60000)), 190, func(rt *rapid.T) {
-		bigDocs = 50
+		bigDocs = 150
 		c := genCase(rt)
 		bigDocs = 0
 		c.Jobs = []int{1, 2, 8, 16}
